@@ -304,6 +304,9 @@ func (e *c19Env) do(q *c19Req, id string) (res c19Res) {
 		}
 	}()
 	target, body := c19unhex(q.T), []byte(c19unhex(q.Body))
+	// absolute-path attacks need the sandbox location: @ROOT@ = its path, @ROOTENC@ = the same with %2f
+	target = strings.ReplaceAll(target, "@ROOTENC@", strings.ReplaceAll(e.root, "/", "%2f"))
+	target = strings.ReplaceAll(target, "@ROOT@", e.root)
 	if q.Direct {
 		req := httptest.NewRequest(q.M, "/x", bytes.NewReader(body))
 		req.URL.Path, req.URL.RawPath = target, ""
